@@ -1258,6 +1258,11 @@ def callsite_pairs(contracts=None):
 
 
 CONFORM, CONFORM_ASSUMED = callsite_pairs()
+for _pair in CONFORM:
+    try:
+        _pair[1].checked_against_callee = True
+    except AttributeError:
+        pass
 
 
 def callsite_tasks(selected):
